@@ -331,6 +331,72 @@ theorem best_case_state_partial (v : Vehicle α) (b : Battery α) (fu : FeatureU
     rw [updateSoc_soc _ _ _ hcap, ← hunit]
     simp
 
+/-- `estimate_traversal` (the A* heuristic; `hm` = great-circle distance in metres): a zero distance
+leaves the state alone; otherwise, after the time model's estimate (which touches neither energy nor
+charge), it is `best_case_energy_state` over that distance in the service's distance unit. -/
+theorem estimate_ok {svc : Service α} {eng : SpeedEngine α} {ms : α} {v : Vehicle α} {fu : FeatureUnits}
+    {hm : α} {s s' : VState α} (h : estimateTraversal svc eng ms v fu hm s = .ok s') :
+    (isZero (DistanceUnit.meters.convert svc.distanceUnit hm) = true ∧ s' = s)
+      ∨ (isZero (DistanceUnit.meters.convert svc.distanceUnit hm) = false ∧
+          ∃ s1, s1.liquid = s.liquid ∧ s1.electric = s.electric ∧ s1.soc = s.soc ∧
+            s' = v.bestCaseEnergyState fu (DistanceUnit.meters.convert svc.distanceUnit hm) svc.distanceUnit s1) := by
+  simp only [estimateTraversal] at h
+  split at h
+  · rename_i hz; cases h; exact Or.inl ⟨hz, rfl⟩
+  · rename_i hz
+    right
+    refine ⟨by simpa using hz, ?_⟩
+    split at h
+    · cases h
+    · rename_i s1 h1
+      cases h
+      refine ⟨s1, ?_, ?_, ?_, rfl⟩ <;>
+      · simp only [SpeedEngine.estimate] at h1
+        split at h1
+        · cases h1; rfl
+        · split at h1
+          · cases h1
+          · cases h1; rfl
+
+/-- C08 `best_case` as the search sees it (ICE): the estimate adds ideal rate × great-circle
+distance (in the rate's distance unit), converted to the feature's unit. -/
+theorem estimate_energy_ice (svc : Service α) (eng : SpeedEngine α) (ms : α) (r : PredRecord α)
+    (fu : FeatureUnits) (hm : α) (s s' : VState α)
+    (h : estimateTraversal svc eng ms (.ice r) fu hm s = .ok s')
+    (hz : isZero (DistanceUnit.meters.convert svc.distanceUnit hm) = false) :
+    s'.liquid = s.liquid + r.rateUnit.associatedEnergyUnit.convert fu.liquid
+      (r.idealRate * svc.distanceUnit.convert r.rateUnit.associatedDistanceUnit
+        (DistanceUnit.meters.convert svc.distanceUnit hm)) := by
+  rcases estimate_ok h with ⟨hz', _⟩ | ⟨_, s1, hl, _, _, rfl⟩
+  · rw [hz] at hz'; cases hz'
+  · rw [best_case_state_ice, hl]; rfl
+
+/-- … and for a battery vehicle whose battery unit is the rate's energy unit (`_partial`; without
+that hypothesis `best_case_state_unit_mix_counterexample` applies) -/
+theorem estimate_energy_battery_partial (svc : Service α) (eng : SpeedEngine α) (ms : α) (v : Vehicle α)
+    (b : Battery α) (fu : FeatureUnits) (hm : α) (s s' : VState α)
+    (hv : (∃ r, v = .bev r b) ∨ (∃ sus dep, v = .phev sus dep b))
+    (hunit : b.unit = (bestRecord v).rateUnit.associatedEnergyUnit) (hcap : b.capacity ≠ 0)
+    (h : estimateTraversal svc eng ms v fu hm s = .ok s')
+    (hz : isZero (DistanceUnit.meters.convert svc.distanceUnit hm) = false) :
+    s'.electric = s.electric + (bestRecord v).rateUnit.associatedEnergyUnit.convert fu.electric
+      ((bestRecord v).idealRate * svc.distanceUnit.convert (bestRecord v).rateUnit.associatedDistanceUnit
+        (DistanceUnit.meters.convert svc.distanceUnit hm)) := by
+  rcases estimate_ok h with ⟨hz', _⟩ | ⟨_, s1, _, hel, _, rfl⟩
+  · rw [hz] at hz'; cases hz'
+  · rw [(best_case_state_partial v b fu _ svc.distanceUnit s1 hv hunit hcap).1, hel, best_case]
+
+/-- the estimate keeps the charge within 0–100 as well -/
+theorem estimate_soc_bounds (svc : Service α) (eng : SpeedEngine α) (ms : α) (v : Vehicle α)
+    (fu : FeatureUnits) (hm : α) (s s' : VState α) (h0 : 0 ≤ s.soc ∧ s.soc ≤ 100)
+    (h : estimateTraversal svc eng ms v fu hm s = .ok s') : 0 ≤ s'.soc ∧ s'.soc ≤ 100 := by
+  rcases estimate_ok h with ⟨_, rfl⟩ | ⟨_, s1, _, _, hs, rfl⟩
+  · exact h0
+  · cases v with
+    | ice r => simp only [Vehicle.bestCaseEnergyState]; rw [addLiquid_soc, hs]; exact h0
+    | bev r b => exact updateSoc_bounds _ _ _
+    | phev sus dep b => exact updateSoc_bounds _ _ _
+
 /-! ## The speed handed to the predictor -/
 
 /-- the exact factor between the speed-table entry (in the time model's speed unit) and the speed
@@ -631,6 +697,110 @@ theorem keyDetermines_exact (r : PredRecord α) (su : SpeedUnit) (gu : GradeUnit
     KeyDetermines r su gu (fun s g => (s, g)) := by
   intro s g s' g' h
   cases h; rfl
+
+/-- an optional cache is fine for a record: sound, with a key that determines the prediction -/
+def CacheFine (r : PredRecord α) (su : SpeedUnit) (gu : GradeUnit) (c : Option (Cache K α)) : Prop :=
+  ∀ cm, c = some cm → CacheSound r su gu cm ∧ KeyDetermines r su gu cm.keyOf
+
+theorem predict_fine (r : PredRecord α) (su : SpeedUnit) (gu : GradeUnit) (c : Option (Cache K α))
+    (speed grade d : α) (du : DistanceUnit) (hc : CacheFine r su gu c) :
+    (r.predict c speed su grade gu d du).1 = (r.predict (none : Option (Cache K α)) speed su grade gu d du).1
+      ∧ CacheFine r su gu (r.predict c speed su grade gu d du).2 := by
+  cases c with
+  | none => exact ⟨rfl, by intro cm h; cases h⟩
+  | some cm =>
+    obtain ⟨hs, hk⟩ := hc cm rfl
+    refine ⟨predict_cached r su gu cm speed grade d du hs hk, ?_⟩
+    obtain ⟨_, c', hc', hkey, hs'⟩ := lookupRate_cached r su gu cm speed grade hs hk
+    intro cm' h
+    have : (r.predict (some cm) speed su grade gu d du).2 = (r.lookupRate (some cm) speed su grade gu).2 := rfl
+    rw [this, hc'] at h
+    cases h
+    exact ⟨hs', by rw [hkey]; exact hk⟩
+
+/-- non-vacuity of `CacheFine`: an empty cache keyed by the exact pair of inputs, any capacity -/
+theorem cacheFine_exact_empty (r : PredRecord α) (su : SpeedUnit) (gu : GradeUnit) (n : Nat) :
+    CacheFine r su gu (some ({ capacity := n, keyOf := fun s g => (s, g), entries := [] } : Cache (α × α) α)) := by
+  intro cm h
+  cases h
+  exact ⟨cacheSound_empty r su gu n _, keyDetermines_exact r su gu⟩
+
+/-- the caches of a vehicle are fine for the units the traversal model predicts with -/
+def CachesFine (v : Vehicle α) (su : SpeedUnit) (gu : GradeUnit) (c : Caches K α) : Prop :=
+  match v with
+  | .ice r => CacheFine r su gu c.main
+  | .bev r _ => CacheFine r su gu c.main
+  | .phev sus dep _ => CacheFine dep su gu c.main ∧ CacheFine sus su gu c.sustain
+
+def noCaches : Caches K α := { main := none, sustain := none }
+
+theorem consume_cache_irrelevant (v : Vehicle α) (fu : FeatureUnits) (c : Caches K α)
+    (speed : α) (su : SpeedUnit) (grade : α) (gu : GradeUnit) (d : α) (du : DistanceUnit) (s : VState α)
+    (hc : CachesFine v su gu c) :
+    (v.consumeEnergy fu c speed su grade gu d du s).1
+        = (v.consumeEnergy fu (noCaches : Caches K α) speed su grade gu d du s).1
+      ∧ CachesFine v su gu (v.consumeEnergy fu c speed su grade gu d du s).2 := by
+  cases v with
+  | ice r =>
+    obtain ⟨h1, h2⟩ := predict_fine r su gu c.main speed grade d du hc
+    simp only [Vehicle.consumeEnergy, noCaches, CachesFine]
+    exact ⟨by rw [h1], h2⟩
+  | bev r b =>
+    obtain ⟨h1, h2⟩ := predict_fine r su gu c.main speed grade d du hc
+    simp only [Vehicle.consumeEnergy, noCaches, CachesFine]
+    exact ⟨by rw [h1], h2⟩
+  | phev sus dep b =>
+    obtain ⟨hm, hsus⟩ := hc
+    obtain ⟨h1, h2⟩ := predict_fine dep su gu c.main speed grade d du hm
+    obtain ⟨h3, h4⟩ := predict_fine sus su gu c.sustain speed grade d du hsus
+    simp only [Vehicle.consumeEnergy, noCaches, CachesFine]
+    split
+    · exact ⟨by rw [h1], h2, hsus⟩
+    · exact ⟨by rw [h3], hm, h4⟩
+
+/-- C08 (with and without the prediction cache): when every cache is sound and its key determines
+the prediction (e.g. an exact key, starting empty), a route produces exactly the states it produces
+without any cache — every edge sequence, every capacity / eviction history. -/
+theorem route_cache_irrelevant (svc : Service α) (eng : SpeedEngine α) (v : Vehicle α) (fu : FeatureUnits)
+    (edges : List (Edge α)) (s : VState α) (c : Caches K α) (st' : VState α × Caches K α)
+    (hc : CachesFine v svc.timeModelSpeedUnit svc.gradeUnit c)
+    (h : traverseRoute svc eng v fu edges (s, c) = .ok st') :
+    ∃ c', traverseRoute svc eng v fu edges (s, (noCaches : Caches K α)) = .ok (st'.1, c') := by
+  induction edges generalizing s c with
+  | nil => simp only [traverseRoute] at h ⊢; cases h; exact ⟨_, rfl⟩
+  | cons e es ih =>
+    simp only [traverseRoute] at h ⊢
+    split at h
+    · cases h
+    · rename_i st1 h1
+      obtain ⟨s1, grade, ht, hg, hst1⟩ := traverseEdge_ok h1
+      obtain ⟨e1, e2⟩ := consume_cache_irrelevant v fu c (reconstructSpeed svc fu e s s1)
+        svc.timeModelSpeedUnit grade svc.gradeUnit (baseDistanceUnit.convert svc.distanceUnit e.distance)
+        svc.distanceUnit s1 hc
+      have hno : traverseEdge svc eng v fu e (s, (noCaches : Caches K α))
+          = .ok (v.consumeEnergy fu (noCaches : Caches K α) (reconstructSpeed svc fu e s s1)
+              svc.timeModelSpeedUnit grade svc.gradeUnit
+              (baseDistanceUnit.convert svc.distanceUnit e.distance) svc.distanceUnit s1) := by
+        simp only [traverseEdge, ht, hg]
+      rw [hno]
+      simp only
+      have hcn : (v.consumeEnergy fu (noCaches : Caches K α) (reconstructSpeed svc fu e s s1)
+              svc.timeModelSpeedUnit grade svc.gradeUnit
+              (baseDistanceUnit.convert svc.distanceUnit e.distance) svc.distanceUnit s1).2
+            = (noCaches : Caches K α) := by
+        cases v with
+        | ice r => rfl
+        | bev r b => rfl
+        | phev sus dep b => simp only [Vehicle.consumeEnergy, noCaches]; split <;> rfl
+      have hst : st1 = (st1.1, st1.2) := rfl
+      rw [hst, hst1] at h
+      rw [← hst1] at e1 e2
+      have := ih st1.1 st1.2 e2 (by rw [hst1]; exact h)
+      obtain ⟨c', hc'⟩ := this
+      refine ⟨c', ?_⟩
+      rw [← hc']
+      congr 1
+      exact Prod.ext e1.symm hcn
 
 end
 
